@@ -5,6 +5,7 @@ package acl
 
 import (
 	"github.com/armon/go-radix"
+	"strings"
 )
 
 type policyAuthorizer struct {
@@ -219,7 +220,7 @@ func (p *policyAuthorizer) loadRules(policy *PolicyRules) error {
 
 		intention := sp.Intentions
 		if intention == "" {
-			switch sp.Policy {
+			switch strings.ToLower(sp.Policy) {
 			case PolicyRead, PolicyWrite:
 				intention = PolicyRead
 			default:
@@ -240,7 +241,7 @@ func (p *policyAuthorizer) loadRules(policy *PolicyRules) error {
 
 		intention := sp.Intentions
 		if intention == "" {
-			switch sp.Policy {
+			switch strings.ToLower(sp.Policy) {
 			case PolicyRead, PolicyWrite:
 				intention = PolicyRead
 			default:
